@@ -17,6 +17,8 @@ namespace tapkee_internal
 __TAPKEE_IMPLEMENTATION(HessianLocallyLinearEmbedding)
     void validate()
     {
+        // the tangent coordinates are the leading eigenvectors of a num_neighbors x num_neighbors local Gram matrix
+        parameters[target_dimension].checked().satisfies(InRange<IndexType>(1, static_cast<IndexType>(parameters[num_neighbors]) + 1)).orThrow();
     }
 
     TapkeeOutput embed()
